@@ -4,5 +4,7 @@ CONSTANTS
   MaxStore = 5
   MaxDead = 1
   MaxRev = 1
-INVARIANTS Sound LocalEmpty Sufficient
+  MaxBad = 0
+  MaxExtra = 0
+INVARIANTS Sound LocalEmpty Sufficient OnlyVerified
 CHECK_DEADLOCK FALSE
